@@ -584,8 +584,13 @@ def h_layer(X, max_cuts, dense, quick=True):
     L = len(hs)
     if dtls:
         stream = T.record(hs, dtls=True)
-        if X.boolean("second_record"):
+        second = X.choose("second_record", ["none", "handshake", "change-cipher-spec"])
+        if second == "handshake":
             stream += T.record([16, 0, 0, 1, 0, 1, 0, 0, 0, 0, 0, 1, 7], dtls=True, seq=1)
+        elif second == "change-cipher-spec":
+            # a complete record of another content type right behind the hello (same datagram / segment)
+            stream += T.record([1], dtls=True, seq=1, ctype=20)
+            X.reach("non-handshake-record-follows")
     else:
         menu = [1, 4, 5, L - 1] if quick else [1, 3, 4, 5, 40, L - 1]
         nrc = X.choose("record_cuts", 3)
@@ -596,11 +601,15 @@ def h_layer(X, max_cuts, dense, quick=True):
             j = X.choose(f"rc{i}", list(range(lo, len(menu))))
             rc.append(menu[j])
             lo = j + 1
-        trailing = X.choose("trailing", ["none", "next-record"] if quick else ["none", "same-record", "next-record"])
+        trailing = X.choose("trailing", ["none", "next-record", "next-ccs-record"] if quick else ["none", "same-record", "next-record", "next-ccs-record"])
         hs2 = hs + ([2, 0, 0, 1] if trailing == "same-record" else [])
         stream = T.split_records(hs2, rc)
         if trailing == "next-record":
             stream += T.record([2, 0, 0, 1, 9])
+        elif trailing == "next-ccs-record":
+            # TLS 1.3 middlebox compatibility: ChangeCipherSpec (and early data) directly behind the ClientHello
+            stream += T.record([1], ctype=20) + T.record([0x17, 0x2A], ctype=23)
+            X.reach("non-handshake-record-follows")
     stream = bytes(stream)
     n = len(stream)
     ncuts = X.choose("segments", max_cuts + 1)
@@ -953,9 +962,9 @@ def obligations(tier):
              encoded=ENCODED[5:7], must_reach=["complete", "incomplete", "overlong"], stubs=STUBS, parallel_depth=3),
         Symx("layer-segmentation", lambda X: h_layer(X, 2, not quick, quick),
              bounds="real ClientTLSLayer: reference hello (SNI+ALPN) in <= 3 TLS records (cuts from " + ("{1,4,5,L-1}" if quick else "{1,3,4,5,40,L-1}") + ") with/without trailing "
-                    "handshake data, or DTLS record (+ second record); TCP stream cut into <= 3 segments (first cut anywhere, second "
+                    "handshake data or a following ChangeCipherSpec + application-data record, or DTLS record (+ second handshake / ChangeCipherSpec record); TCP stream cut into <= 3 segments (first cut anywhere, second "
                     + ("anywhere" if not quick else "from 5 positions relative to the first") + "); tls_clienthello hook withheld",
-             encoded=ENCODED[8:9] + ENCODED[4:5], must_reach=["hello", "completed-by-later-segment"], parallel_depth=4),
+             encoded=ENCODED[8:9] + ENCODED[4:5], must_reach=["hello", "completed-by-later-segment", "non-handshake-record-follows"], parallel_depth=4),
         Symx("hello-bytes-tls", shimmed(lambda X: h_hello_bytes(X, False, r_tls)),
              bounds=f"ALL ClientHello bodies of length 32..{34 + r_tls} (every byte symbolic) through parse_client_hello vs strict reference parser",
              encoded=ENCODED[4:5] + ENCODED[9:15], must_reach=["accepted", "ref-accepts", "with-extensions", "both-reject", "lenient-accept"],
